@@ -357,6 +357,15 @@ func (c *Ctx) c15FileLoads() {
 			"lib/d.go": "// a comment\n\n//go:build ignore\n\npackage lib\n\nfunc init() { println(\"BAD d\") }\n"}, "main", "lib\nlib b\nmain 2 true\n"},
 		{map[string]string{"main/main.go": "package main\nimport \"example.com/x/helper\"\nfunc init() { println(\"main\") }\n", "vendor/example.com/x/helper/h_test.go": "package helper\nfunc init() { println(\"BAD vendored test\") }\n",
 			"helper/helper.go": "package helper\nfunc init() { println(\"helper\") }\n"}, "main", "main\n"},
+		// only a file name that ends in _test.go is a test file: latest.go, contest.go, test.go are ordinary sources
+		{map[string]string{"main/main.go": "package main\nimport \"lib/dep\"\nfunc init() { println(\"main\", dep.M+dep.C+dep.T) }\n", "lib/dep/dep.go": "package dep\nfunc init() { println(\"dep\") }\n",
+			"lib/dep/latest.go": "package dep\nvar M = 40\nfunc init() { println(\"latest\") }\n", "lib/dep/contest.go": "package dep\nconst C = 2\nfunc init() { println(\"contest\") }\n",
+			"lib/dep/test.go": "package dep\nvar T = 100\nfunc init() { println(\"test\") }\n", "lib/dep/dep_test.go": "package dep\nfunc init() { println(\"BAD dep_test.go\") }\n",
+			"lib/dep/_test.go": "package dep\nfunc init() { println(\"BAD _test.go\") }\n"}, "main", "contest\ndep\nlatest\ntest\nmain 142\n"},
+		// a file that holds nothing but its package clause, sorted first, second or last among the files of an imported package
+		{map[string]string{"main/main.go": "package main\nimport \"lib\"\nfunc init() { println(\"main\", lib.Make()) }\n", "lib/aaa.go": "package lib\n", "lib/lib.go": "package lib\nfunc Make() int { return 7 }\nfunc init() { println(\"lib\") }\n"}, "main", "lib\nmain 7\n"},
+		{map[string]string{"main/main.go": "package main\nimport \"lib\"\nfunc init() { println(\"main\", lib.Make()) }\n", "lib/zzz.go": "package lib\n", "lib/lib.go": "package lib\nfunc Make() int { return 7 }\nfunc init() { println(\"lib\") }\n"}, "main", "lib\nmain 7\n"},
+		{map[string]string{"main/main.go": "package main\nimport \"lib\"\nfunc init() { println(\"main\", lib.Make()+lib.K) }\n", "lib/a.go": "package lib\n\n// nothing here\n", "lib/b.go": "package lib\nconst K = 1\n", "lib/c.go": "package lib\n", "lib/lib.go": "package lib\nfunc Make() int { return 7 }\nfunc init() { println(\"lib\") }\n"}, "main", "lib\nmain 8\n"},
 	} {
 		fs := fstest.MapFS{}
 		for n, d := range k.files {
